@@ -8,7 +8,7 @@
 using namespace vh;
 using namespace dm;
 
-static bool g_trace = false; static int g_kinds = 3;
+static bool g_trace = false; static int g_kinds = 3; static int g_only_kind = -1;   // while shrinking: only the kind of fault that failed
 typedef std::map<std::string, unsigned> State;      // UID -> owner
 typedef std::map<unsigned, std::set<std::string>> PerUser;
 
@@ -99,7 +99,7 @@ static Verdict judge_case(const std::string &text, std::vector<std::string> *cls
 	Verdict v; v.nontrivial = base.nsys >= 8;
 	if (cls) { cls->push_back(base.nsys == 0 ? "chk-syscalls/0" : base.nsys < 20 ? "chk-syscalls/1-19" : base.nsys < 80 ? "chk-syscalls/20-79" : "chk-syscalls/80+"); if (base.shut) cls->push_back("clean-shutdown"); }
 	if (!all && k > 0) { Run r = run_once(script, k, kind); if (nruns) ++*nruns; if (r.v.k != Verdict::PASS) { r.v.msg = "[fault " + std::to_string(k) + " kind " + std::to_string(kind) + "] " + r.v.msg; return r.v; } }
-	if (all) for (int i = 1; i <= base.nsys; i++) for (int kd = 0; kd < g_kinds; kd++) { Run r = run_once(script, i, kd); if (nruns) ++*nruns; if (r.v.k == Verdict::FAIL) { r.v.msg = "[fault " + std::to_string(i) + " kind " + std::to_string(kd) + "] " + r.v.msg; return r.v; } }
+	if (all) for (int i = 1; i <= base.nsys; i++) for (int kd = 0; kd < g_kinds; kd++) { if (g_only_kind >= 0 && kd != g_only_kind) continue; Run r = run_once(script, i, kd); if (nruns) ++*nruns; if (r.v.k == Verdict::FAIL) { r.v.msg = "[fault " + std::to_string(i) + " kind " + std::to_string(kd) + "] " + r.v.msg; return r.v; } }
 	v.classes = cls ? *cls : std::vector<std::string>();
 	return v;
 }
@@ -109,6 +109,7 @@ Verdict prop_replay(Ctx &c, const std::string &t) { g_trace = c.getoptl("trace",
 void prop_gen(Ctx &c) {
 	bool survey = c.getoptl("survey", 0) != 0;
 	int maxops = (int)c.getoptl("maxops", 30); g_kinds = (int)c.getoptl("kinds", 3);
+	c.shrink_budget = 15;   // every shrink attempt re-runs the whole fault enumeration of its history
 	std::string params = "seed=" + std::to_string(c.seed) + " max_success=" + std::to_string(c.cases) + " max_size=" + std::to_string(c.size) + " max_discard_ratio=20";
 	setenv("RC_PARAMS", params.c_str(), 1);
 	using rgen::R;
@@ -134,7 +135,7 @@ void prop_gen(Ctx &c) {
 		Verdict v = judge_case(text, &cls, &nruns);
 		c.st.extra["fault_runs"] += (int64_t)nruns;
 		// the replay of a failure is the single failing fault point
-		std::string rep = text; if (v.k == Verdict::FAIL && v.msg.compare(0, 7, "[fault ") == 0) { int k = 0, kd = 0; sscanf(v.msg.c_str(), "[fault %d kind %d]", &k, &kd); rep = "FAULTPLAN " + std::to_string(k) + " " + std::to_string(kd) + "\n" + script; } else if (v.k == Verdict::FAIL) rep = script;
+		std::string rep = text; if (v.k == Verdict::FAIL && v.msg.compare(0, 7, "[fault ") == 0) { int k = 0, kd = 0; sscanf(v.msg.c_str(), "[fault %d kind %d]", &k, &kd); rep = "FAULTPLAN " + std::to_string(k) + " " + std::to_string(kd) + "\n" + script; g_only_kind = kd; } else if (v.k == Verdict::FAIL) rep = script;
 		c.st.record(rep, v);
 		if (v.k == Verdict::FAIL && survey) { std::string m = v.msg; size_t b = m.find("] "); if (b != std::string::npos) m = m.substr(b + 2); c.st.survey_add(m.substr(0, 60), rep.substr(0, 40000) + " :: " + v.msg); return; }
 		if (v.k == Verdict::FAIL) { c.note_fail(rep, v.msg); RC_FAIL(v.msg); }
